@@ -17,7 +17,7 @@ import random
 from vf import runner as R
 from vf.compat import repo_path
 from vf.corpus import split_file
-from vf.ctx import make_ctx, parse, run_passes_limited, to_text
+from vf.ctx import PassTimeout, make_ctx, parse, run_passes_limited, to_text
 from vf.gen import kernel_gen as G
 from vf.interp import scalar as S
 
@@ -70,6 +70,7 @@ FLOORS = {
         "expansion_vectors_compared": 60000,
         "rescale_vectors_judged": 15000,
         "dispatch_generics_checked": 1200,
+        "tosa_rescales_checked": 600,
     },
     "thorough": {
         "programs": 90000,
@@ -453,6 +454,117 @@ def check_expansion(text, vec_seed, res, n_random=200, max_corner=400):
 # ------------------------------------------------------------------------------------------------
 # monitor 3: dispatch
 # ------------------------------------------------------------------------------------------------
+
+# ------------------------------------------------------------------------------------------------
+# monitor (e): tosa.rescale [+ tosa.clamp] -> kernel.rescale (convert-tosa-to-kernel)
+# ------------------------------------------------------------------------------------------------
+def gen_tosa_case(rng):
+    out_el = rng.choice(["i8", "i8", "i8", "i32"])
+    clamp = rng.random() < 0.6
+    nvals = rng.choice([1, 1, 1, 4, 8])
+    lo_t, hi_t = (-128, 127) if out_el == "i8" else (-(1 << 31), (1 << 31) - 1)
+    if clamp:
+        a, b = sorted([rng.randint(lo_t, hi_t), rng.randint(lo_t, hi_t)])
+    else:
+        a, b = None, None
+    return {
+        "monitor": "tosa",
+        "out_el": out_el,
+        "clamp": clamp,
+        "min": a,
+        "max": b,
+        "input_zp": rng.randint(-128, 127),
+        "output_zp": rng.randint(-128, 127),
+        "mult": [rng.randint(1, (1 << 31) - 1) for _ in range(nvals)],
+        "shift": [rng.randint(2, 62) for _ in range(nvals)],
+        "mode": rng.choice(["DOUBLE_ROUND", "SINGLE_ROUND"]),
+        "shape": rng.choice(["4x8", "?x8", "16", "2x3x8"]),
+        "second_user": rng.random() < 0.08,
+    }
+
+
+def check_tosa(case, res):
+    """The parameters of the tosa ops must arrive unchanged in the kernel op the accelerator lowering reads: zero points, every
+    multiplier / shift, the rounding mode, and as clamping range the clamp op's bounds - or, without a clamp op, the value range of
+    the output element type (what tosa.rescale saturates to)."""
+    out = []
+    n = len(case["mult"])
+    sh, oel = case["shape"], case["out_el"]
+    ti, to = f"tensor<{sh}xi32>", f"tensor<{sh}x{oel}>"
+    dm = ", ".join(map(str, case["mult"]))
+    ds = ", ".join(map(str, case["shift"]))
+    lines = [
+        f'    %izp = "tosa.const"() <{{values = dense<{case["input_zp"]}> : tensor<1xi32>}}> : () -> tensor<1xi32>',
+        f'    %ozp = "tosa.const"() <{{values = dense<{case["output_zp"]}> : tensor<1xi32>}}> : () -> tensor<1xi32>',
+        f'    %mul = "tosa.const"() <{{values = dense<[{dm}]> : tensor<{n}xi32>}}> : () -> tensor<{n}xi32>',
+        f'    %shf = "tosa.const"() <{{values = dense<[{ds}]> : tensor<{n}xi8>}}> : () -> tensor<{n}xi8>',
+        f"    %r = tosa.rescale %x, %mul, %shf, %izp, %ozp {{rounding_mode = {case['mode']}, per_channel = {'true' if n > 1 else 'false'}, scale32 = true, input_unsigned = false, output_unsigned = false}} : ({ti}, tensor<{n}xi32>, tensor<{n}xi8>, tensor<1xi32>, tensor<1xi32>) -> {to}",
+    ]
+    last = "%r"
+    if case["clamp"]:
+        lines.append(f"    %c = tosa.clamp %r {{max_val = {case['max']} : {oel}, min_val = {case['min']} : {oel}}} : ({to}) -> {to}")
+        last = "%c"
+    if case["second_user"]:
+        lines.append(f'    "test.op"(%r) : ({to}) -> ()')
+    text = "builtin.module {\n  func.func @main(%x: " + ti + ") -> " + to + " {\n" + "\n".join(lines) + f"\n    func.return {last} : {to}\n  }}\n}}\n"
+    res["evaluations"] += 1
+    try:
+        m = parse(ctx(), text)
+        m.verify()
+    except Exception as e:
+        R.bump(res, "generator_invalid")
+        R.reject(res, e)
+        return out
+    try:
+        run_passes_limited(ctx(), m, "convert-tosa-to-kernel", 5)
+        m.verify()
+    except PassTimeout:
+        R.reject(res, "PassTimeout")
+        return out
+    except Exception as e:
+        R.reject(res, e)
+        return out
+    ks = [op for op in m.walk() if op.name == "kernel.rescale"]
+    left = [op for op in m.walk() if op.name in ("tosa.rescale", "tosa.clamp")]
+    if not ks:
+        R.bump(res, "tosa_not_converted" + (":second-user" if case["second_user"] else ""))
+        return out
+    res["programs"] += 1
+    res["compared"] += 1
+    R.bump(res, "tosa_rescales_checked")
+    k = ks[0]
+    lo_t, hi_t = (-128, 127) if oel == "i8" else (-(1 << 31), (1 << 31) - 1)
+    want = {
+        "input_zp": case["input_zp"],
+        "output_zp": case["output_zp"],
+        "multiplier": list(case["mult"]),
+        "shift": list(case["shift"]),
+        "min_int": case["min"] if case["clamp"] else lo_t,
+        "max_int": case["max"] if case["clamp"] else hi_t,
+        "double_round": case["mode"] == "DOUBLE_ROUND",
+    }
+    got = {}
+    for name in want:
+        a = k.properties.get(name) or k.attributes.get(name)
+        if a is None:
+            got[name] = None
+        elif hasattr(a, "get_values"):
+            got[name] = [int(v) for v in a.get_values()]
+        elif hasattr(a, "value"):
+            got[name] = int(a.value.data)
+        else:
+            got[name] = a
+    got["double_round"] = bool(got["double_round"]) if got["double_round"] is not None else None
+    bad = [f"{nm}: kernel op has {got[nm]}, the tosa ops say {want[nm]}" for nm in want if got[nm] != want[nm]]
+    if left:
+        bad.append(f"{[o.name for o in left]} left beside the kernel op")
+    if bad:
+        out.append({"kind": "rescale-parameters-changed-by-conversion", "detail": "[convert-tosa-to-kernel] " + "; ".join(bad[:3]), "case": case})
+    else:
+        R.nontrivial(res, "tosa", oel, case["clamp"], n, case["mode"], sh)
+    return out
+
+
 def lib_of(g):
     lc = g.properties.get("library_call") if hasattr(g, "properties") else None
     if lc is None:
@@ -591,6 +703,8 @@ def replay(case):
         return check_expansion(case["text"], case["vec_seed"], res, n_random=case.get("n_random", 200), max_corner=case.get("max_corner", 400))
     if mon == "dispatch":
         return check_dispatch(case["text"], case["accs"], res)
+    if mon == "tosa":
+        return check_tosa(case, res)
     raise ValueError(f"unknown monitor {mon!r}")
 
 
@@ -683,4 +797,9 @@ def run_shard(seed, shard, n_cases, tier):
         record(res, vs)
         if shard == 0 and i < 1:
             R.sample(res, {"monitor": "dispatch", "accs": c["accs"], "text": text})
+
+    # (e) tosa rescale / clamp -> kernel.rescale
+    rng_t = random.Random(seed ^ 0x705A)
+    for i in range(max(4, n_cases // 2)):
+        record(res, check_tosa(gen_tosa_case(rng_t), res))
     return res
